@@ -386,6 +386,36 @@ int main(void)
 			mt->_vptr->unref(mt);
 			printf("R walk n=%zu stop=%s | C - | I -\n", visited, stop);
 		}
+		else if (!strcmp(op, "cmpclone") && drv_nw == 3) {
+			/* it cmpclone <cap> : clone the current source and walk original and clone side by side; the clone
+			 * replays the IDENTICAL sequence: values are compared bit by bit, the advance results too */
+			size_t cap, n = 0;
+			const char *stop = "cap";
+			MPT_INTERFACE(metatype) *cm;
+			MPT_INTERFACE(iterator) *ci = 0;
+			int differ = 0;
+			if (cur < 0 || drv_parse_nat(drv_w[2], &cap) || cap > 4096) { puts("bad-op"); continue; }
+			if (!(cm = slot_mt[cur]->_vptr->clone(slot_mt[cur]))) { puts("R refused | C - | I -"); continue; }
+			if (MPT_metatype_convert(cm, MPT_ENUM(TypeIteratorPtr), &ci) < 0 || !ci) { cm->_vptr->unref(cm); puts("R no-iterator | C - | I -"); continue; }
+			while (n < cap) {
+				const MPT_STRUCT(value) *va = slot_it[cur]->_vptr->value(slot_it[cur]);
+				const MPT_STRUCT(value) *vb = ci->_vptr->value(ci);
+				double a = 0, b = 0;
+				int ra, rb;
+				if (!va || !vb) { if (va || vb) differ = 1; stop = "null"; break; }
+				ra = mpt_value_convert(va, 'd', &a); rb = mpt_value_convert(vb, 'd', &b);
+				if ((ra < 0) != (rb < 0) || (ra >= 0 && memcmp(&a, &b, sizeof(a)))) { differ = 1; break; }
+				if (ra < 0) { stop = "noconv"; break; }
+				++n;
+				ra = slot_it[cur]->_vptr->advance(slot_it[cur]); rb = ci->_vptr->advance(ci);
+				if (ra != rb) { differ = 1; break; }
+				if (ra < 0) { stop = "err"; break; }
+				if (!ra) { stop = "end"; break; }
+			}
+			cm->_vptr->unref(cm);
+			if (differ) printf("R differ at=%zu | C - | I -\n", n);
+			else printf("R same n=%zu stop=%s | C - | I -\n", n, stop);
+		}
 		else if (!strcmp(op, "kwalk") && drv_nw == 3) {
 			/* the documented loop reading keys ('k') from a text iterator */
 			size_t cap, n = 0;
